@@ -397,7 +397,7 @@ def run(pid, tier, seed, rule, assumptions):
                                             "CompiledOnce", "OrderMatches", "EmitInv"],
                                 properties=["Stable"], constraints=["Bound"], view="view")
         try:
-            pay, stats = tlcrun.run_tlc(mod, cf, f"{pid}_{name}", timeout=3000)
+            pay, stats = tlcrun.run_tlc(mod, cf, f"{pid}_{name}", timeout=3000, coverage=(tier == "thorough"))
         except tlcrun.TLCError as e:
             rep.machinery_errors.append(str(e)[-1500:])
             continue
